@@ -267,12 +267,50 @@ def gen_val(rng, depth=2):
     return ["d", [[k, fresh_nans(gen_val(rng, depth - 1))] for k in keys]]
 
 
+def retype(rng, v, p=0.7):
+    """a value that is EQUAL to `v` for Python (`==`) but — with probability p at every number it holds — of another type:
+    bool / int / float of the same numeric value (True ~ 1 ~ 1.0, False ~ 0 ~ 0.0, 3 ~ 3.0), through lists and dict values at
+    any depth, dict entries possibly in another order.  What is printed (`1`, `1.0`, `true`) differs; what `==` says does not."""
+    def num(n2):                       # n2 = the value in halves
+        if n2 % 2:
+            return ["f", n2]
+        if abs(n2) >= 2 * 10 ** 15:    # the float would print in exponent notation (1e+20): outside the modelled renderings
+            return ["i", n2 // 2]
+        opts = [["i", n2 // 2], ["f", n2]] + ([n2 == 2] if n2 in (0, 2) else [])
+        return rng.choice(opts)
+
+    if v is None:
+        return None
+    if isinstance(v, bool):
+        return num(2 * int(v)) if rng.random() < p else v
+    t, x = v
+    if t == "i":
+        return num(2 * x) if rng.random() < p else v
+    if t == "f":
+        return num(x) if rng.random() < p else v
+    if t == "l":
+        return ["l", [fresh_nans(retype(rng, e, p)) for e in x]]
+    if t == "d":
+        items = [[k, fresh_nans(retype(rng, e, p))] for k, e in x]
+        if rng.random() < 0.3:
+            rng.shuffle(items)
+        return ["d", items]
+    return v
+
+
+def has_number(v):
+    if isinstance(v, bool):
+        return True
+    return isinstance(v, list) and len(v) == 2 and (v[0] in ("i", "f") or (v[0] == "l" and any(has_number(e) for e in v[1]))
+                                                      or (v[0] == "d" and any(has_number(e) for _, e in v[1])))
+
+
 def literals_of(e):
     """the Val literals occurring in an expression (used to aim actual values at the matcher)"""
     out = []
     c = e[0]
     if c in ("val", "equal_to", "not_equal_to", "greater_than", "greater_than_or_equal_to", "less_than",
-             "less_than_or_equal_to"):
+             "less_than_or_equal_to", "is_json"):
         out.append(e[1])
     elif c in ("has_items", "has_only_items", "is_in"):
         out.extend(e[1])
@@ -294,8 +332,10 @@ def gen_actual(rng, expr):
     r = rng.random()
     if not lits or r < 0.4:
         return gen_val(rng, 2)
-    if r < 0.7:
+    if r < 0.6:
         return rng.choice(lits)
+    if r < 0.7:
+        return retype(rng, rng.choice(lits))        # equal under ==, other number types (1 / 1.0 / True), at any depth
     if r < 0.85:
         k = rng.choice([1, 2, 3])
         return ["l", [fresh_nans(rng.choice(lits) if rng.random() < 0.8 else gen_scalar(rng)) for _ in range(k)]]
